@@ -587,6 +587,23 @@ pub fn generate(prop: &str, seed: u64) -> W1Scn {
             _ => g.offgrid_create(),
         }
     }
+    // rarely the history ends at the top of the clock's domain: a jump to 2^64 - 1 (or just below, then stepping up to it),
+    // followed by a few operations at the last representable instants (the clock never moves backwards; an order that
+    // ends there ends at a time equal to the "no end yet" value of the record)
+    if w[7] > 0 && !big_file && g.r.chance(0.03) {
+        let back = g.r.below(3) as u8;
+        g.push(Op::TickTop { back });
+        for _ in 0..g.r.range(2, 8) {
+            match g.r.below(8) {
+                0..=2 => g.taker(),
+                3 | 4 => g.maker(),
+                5 => g.cancel(),
+                6 => g.modify(false),
+                _ => g.push(Op::Tick { dt: 1 }),
+            }
+        }
+        g.ops.retain(|_| true);
+    }
     if p.offgrid_modify_last > 0.0 && g.r.chance(p.offgrid_modify_last) {
         let a = g.pick_asset();
         if let Some(ord) = g.pick_order(a, Some(ACTIVE)) {
